@@ -131,7 +131,7 @@ impl Check for C20 {
             json!({"net": net, "mode": "mutate", "flips": flips, "chunks": (0..g.range(1, 6)).map(|_| g.range(1, 700)).collect::<Vec<_>>(), "truncate": if g.chance(25) { json!(g.range(1, 1500)) } else { Value::Null }})
         } else {
             let net = calm_net(&mut g);
-            let target = *g.pick(&["socks5", "socks5", "http", "http", "udp"]);
+            let target = *g.pick(&["socks5", "socks5", "http", "http", "udp", "server", "server"]);
             let l = match g.range(0, 5) {
                 0 => 0,
                 1 => g.range(1, 8),
@@ -149,7 +149,9 @@ impl Check for C20 {
                 let n = std::cmp::min(prefix.len(), bytes.len());
                 bytes[..n].copy_from_slice(&prefix[..n]);
             }
-            json!({"net": net, "mode": "frontends", "target": target, "bytes": hexs(&bytes), "close": g.chance(60), "segments": g.range(1, 5)})
+            json!({"net": net, "mode": "frontends", "target": target, "bytes": hexs(&bytes), "close": g.chance(60), "segments": g.range(1, 5),
+                // target "server": what the hostile peer does on the proxy server's own port before it goes silent
+                "raw_kind": *g.pick(&["nothing", "junk", "partial_tls_record", "tls_then_partial_preamble", "tls_then_junk"]), "preamble_cut": g.range(0, 63), "stalled_conns": g.range(1, 3)})
         }
     }
     fn horizon(&self, _p: &Value) -> Duration {
@@ -554,7 +556,43 @@ async fn run_frontends(plan: &Value) -> Outcome {
     let seg = std::cmp::max(1, (bytes.len() + nseg - 1) / nseg);
     let close = plan["close"].as_bool().unwrap_or(true);
     let mut held: Vec<TcpStream> = Vec::new();
+    let mut held_tls = Vec::new();
     match target {
+        "server" => {
+            // one or more peers talk to the server's own port and then fall silent with the connection open
+            for _ in 0..plan["stalled_conns"].as_u64().unwrap_or(1) {
+                let Ok(mut tcp) = TcpStream::connect(SERVER_ADDR).await else { continue };
+                match plan["raw_kind"].as_str().unwrap_or("nothing") {
+                    "nothing" => held.push(tcp),
+                    "junk" => {
+                        let _ = tcp.write_all(&bytes[..std::cmp::min(bytes.len(), 300)]).await;
+                        held.push(tcp);
+                    }
+                    "partial_tls_record" => {
+                        let _ = tcp.write_all(&[0x16, 0x03, 0x01, 0x02, 0x00, 0x01, 0x00]).await;
+                        held.push(tcp);
+                    }
+                    kind => {
+                        let connector = crate::fixtures::connector();
+                        if let Ok(Ok(mut tls)) = timeout(Duration::from_secs(30), connector.connect("localhost".try_into().unwrap(), tcp)).await {
+                            if kind == "tls_then_junk" {
+                                let _ = tls.write_all(&bytes[..std::cmp::min(bytes.len(), 300)]).await;
+                            } else {
+                                // a truncated authentication preamble (right hash, announced padding not delivered)
+                                let mut pre = crate::checks::c06::sha(PASSWORD).to_vec();
+                                pre.extend_from_slice(&[0, 30]);
+                                pre.extend_from_slice(&[0u8; 30]);
+                                let cut = std::cmp::min(plan["preamble_cut"].as_u64().unwrap_or(0) as usize, pre.len() - 1);
+                                let _ = tls.write_all(&pre[..cut]).await;
+                            }
+                            let _ = tls.flush().await;
+                            held_tls.push(tls);
+                        }
+                    }
+                }
+            }
+            sleep(Duration::from_secs(2)).await;
+        }
         "udp" => {
             // the bytes become the content of a UDP-over-TCP stream (initial request and packets)
             match timeout(Duration::from_secs(60), client.create_proxy_stream(("sp.v2.udp-over-tcp.arpa".to_string(), 0))).await {
@@ -611,5 +649,6 @@ async fn run_frontends(plan: &Value) -> Outcome {
     out.nontrivial = true;
     out.summary = json!({"mode": "frontends", "target": target, "bytes": bytes.len()});
     drop(held);
+    drop(held_tls);
     out
 }
